@@ -1062,6 +1062,12 @@ func execC06Prim(c *vf.Ctx, cs c06Case) {
 				k2.Oct = append([]byte{}, k.Oct...)
 				k2.Oct[0] ^= 0x80
 			}
+			if strings.HasPrefix(cs.Prim, "PBES2") && bytes.Equal(bytes.TrimRight(k2.Oct, "\x00"), bytes.TrimRight(k.Oct, "\x00")) {
+				// HMAC pads its key with zero octets: passwords that differ only in trailing zero octets are the
+				// SAME PBKDF2 key (an algorithm property, seed 31 of the background sweep hit an appended 0x00)
+				k2.Oct = append([]byte{}, k.Oct...)
+				k2.Oct[0] ^= 0x80
+			}
 			e.addKey(k2)
 			gk2, err := e.goatKey("k1")
 			if err != nil {
